@@ -400,6 +400,105 @@ def shard(args):
     return agg
 
 
+# ------------------------------------------------------------------------------------------------
+# binder matrix: every scope kind x every pair of binder slots of that scope (equal or distinct names) x the
+# same names in *nested* scopes (legal shadowing) x live / dead contexts.  The oracle above decides each verdict.
+
+def binder_matrix():
+    one = ("num", "1")
+    out = []
+
+    def name_sets(n):
+        yield None, ["n%d" % k for k in range(n)]
+        for i in range(n):
+            for j in range(i + 1, n):
+                nm = ["n%d" % k for k in range(n)]
+                nm[j] = nm[i]
+                yield (i, j), nm
+
+    def fld(name, kind, vis=1):
+        fn = ("id", name) if kind == 0 else ("sname", name, "dq" if kind == 1 else "sq")
+        return ("field", fn, False, vis, one)
+
+    for n in (2, 3):
+        for pair, nm in name_sets(n):
+            tag = "same%s" % (pair,) if pair else "distinct"
+            binds = [("bind", x, None, one) for x in nm]
+            params = [("param", x, None) for x in nm]
+            dparams = [("param", x, one if k else None) for k, x in enumerate(nm)]
+            out.append(("local/" + tag, ("local", binds, ("var", nm[0]))))
+            out.append(("func/" + tag, ("func", params, one)))
+            out.append(("func_defaults/" + tag, ("func", dparams, one)))
+            out.append(("local_func/" + tag, ("local", [("bind", "f", params, one)], one)))
+            out.append(("method/" + tag, ("obj", [("ffunc", ("id", "m"), params, 1, one)])))
+            out.append(("objlocal_func/" + tag, ("obj", [("mlocal", ("bind", "f", params, one)), fld("k", 0)])))
+            # nested scopes: legal shadowing whatever the names
+            out.append(("nested_local/" + tag, ("local", [binds[0]], ("local", binds[1:], one))))
+            out.append(("param_vs_local/" + tag, ("local", [binds[0]], ("func", params[1:], one))))
+            out.append(("comp_vars/" + tag, ("arrcomp", one, [("sfor", x, ("arr", [one])) for x in nm])))
+            out.append(("objlocal_vs_outer/" + tag, ("local", [binds[0]], ("obj", [("mlocal", b) for b in binds[1:]] + [fld("k", 0)]))))
+            # object locals interleaved with fields in every arrangement
+            for mask in range(1 << (n + 1)):
+                members = []
+                for k in range(n):
+                    if mask >> k & 1:
+                        members.append(fld("f%d" % k, 0))
+                    members.append(("mlocal", binds[k]))
+                if mask >> n & 1:
+                    members.append(fld("g", 0))
+                out.append(("objlocals/%s/m%d" % (tag, mask), ("obj", members)))
+            # object comprehension: k locals before the field, n-k after
+            for k in range(n + 1):
+                oc = ("objcomp", binds[:k], ("var", "cv"), False, one, binds[k:], [("sfor", "cv", ("arr", [("str", "a", "dq")]))])
+                out.append(("objcomp_locals/%s/before%d" % (tag, k), oc))
+            out.append(("objcomp_local_vs_compvar/" + tag,
+                        ("objcomp", binds[1:], ("var", nm[0]), False, one, [], [("sfor", nm[0], ("arr", [("str", "a", "dq")]))])))
+            # statically named fields: identifier / string spellings, visibilities, methods
+            for kinds in ((0, 0, 0), (0, 1, 2), (1, 1, 0), (2, 0, 1)):
+                for vis in ((1, 1, 1), (1, 2, 3), (3, 1, 2)):
+                    members = [fld(x, kinds[k], vis[k]) for k, x in enumerate(nm)]
+                    out.append(("fields/%s/k%s/v%s" % (tag, "".join(map(str, kinds)), "".join(map(str, vis))), ("obj", members)))
+            members = [fld(nm[0], 0)] + [("ffunc", ("id", x), [], 1, one) for x in nm[1:]]
+            out.append(("field_vs_method/" + tag, ("obj", members)))
+            members = [("field", ("ename", ("str", x, "dq")), False, 1, one) for x in nm]
+            out.append(("computed_names_equal_is_runtime/" + tag, ("obj", members)))
+    return out
+
+
+def in_contexts(tree):
+    one = ("num", "1")
+    yield "live", tree
+    yield "dead_else", ("if", ("true",), one, tree)
+    yield "unused_local", ("local", [("bind", "unused_q", None, tree)], one)
+    yield "default_arg", ("call", ("func", [("param", "q", tree)], one), [("pos", one)], False)
+    yield "hidden_field", ("dot", ("obj", [("field", ("id", "h"), False, 2, tree), ("field", ("id", "v"), False, 1, one)]), "v")
+    yield "comp_body_never", ("arrcomp", tree, [("sfor", "zq", ("arr", []))])
+    yield "fieldname_expr", ("obj", [("field", ("ename", ("if", ("false",), tree, ("str", "k", "dq"))), False, 1, one)])
+    yield "uncalled_function", ("local", [("bind", "uf", [], tree)], one)
+
+
+def matrix_shard(args):
+    cases, = args
+    agg = Agg()
+    srv = Server()
+    ev = Ev(agg)
+    try:
+        for name, ctx, tree in cases:
+            rej = judge(agg, srv, tree, "binder_matrix:" + name.split("/")[0] + ":" + ctx)
+            if rej is not None:
+                agg.add("binder_matrix_cells", (name.split("/")[0], ctx, rej))
+            if rej is False:
+                text, _ = genast.render(tree, "min")
+                r = ev.run(text, walk=0, stack=500)
+                if r.cls in ("panic", "crash"):
+                    agg.violation({"kind": "accepted_program_crashes", "msg": re.sub(r"[0-9]+", "N", (r.msg or ""))[:80]},
+                                  {"program": text.decode("utf-8", "replace")[:1000], "panic": r.msg}, {"script": r.lines})
+    finally:
+        srv.close()
+        ev.close()
+    return agg
+
+
 TEMPLATES_OK = [
     "local x = 1; local x = 2; x", "local x = 1; (function(x) x)(2)", "local x = 1; [x for x in [x]]",
     "local x = 1; {x: x, local y = x, z: y}", "local x = 1; {local x = 2, a: x}", "{a: 1, b: {a: self.a}}",
@@ -517,6 +616,10 @@ def run(tier, seed):
         total.merge(a)
     for a in common.pmap(templates_shard, [(seed,)]):
         total.merge(a)
+    mcases = [(name, ctx, t2) for name, t in binder_matrix() for ctx, t2 in in_contexts(t)]
+    total.count("binder_matrix_cases", len(mcases))
+    for a in common.pmap(matrix_shard, [(mcases[i::32],) for i in range(32)]):
+        total.merge(a)
     srv0 = Server()
     try:
         from checks.c01 import std_functions
@@ -538,7 +641,12 @@ def run(tier, seed):
             "arbitrary syntactic trees; (d) every accepted renamed program is then evaluated: no 'variable not "
             "found'/self/$ panic; (e) every std function x argument position given a callback whose defaulted "
             "parameter mentions a captured local / std / self / $ (0-3 required parameters, 6 result shapes, 6 "
-            "companion arguments): no panic, no unknown-variable error; + 65 hand-written accept/reject templates. distinct_nontrivial = distinct "
+            "companion arguments): no panic, no unknown-variable error; (f) binder matrix: every scope kind (local, function / "
+            "local-function / method parameters, object locals interleaved with fields in every arrangement, object-comprehension "
+            "locals split before/after the field in every way, statically named fields in identifier/string spellings x "
+            "visibilities, nested scopes where the same name is legal) x every pair of binder slots equal or distinct x 8 "
+            "contexts (live, dead branch, unused local, default argument, hidden field, never-executed comprehension body, "
+            "field-name expression, uncalled function); + 65 hand-written accept/reject templates. distinct_nontrivial = distinct "
             "programs whose verdict was compared.")
     return common.finish(PROP, tier, seed, total, rule, t0,
                          assumptions=["scope oracle = my reading of the specification's static checks"])
